@@ -73,7 +73,7 @@ KR = "harness.k_reports"
 
 def c18(tier):
     obs = [
-        _ob("K-retry", KS, "k_retry", dict(max_retries=6)),
+        _ob("K-retry", KS, "k_retry", dict(max_retries=4 if tier == "quick" else 6)),
         _ob("K-script", KS, "k_script", {}),
         _ob("K-status/focus", KS, "k_status", dict(lines=0, ws="full")),
         _ob("K-status/multi", KS, "k_status", dict(lines=2, ws="min")),
@@ -146,6 +146,17 @@ def c16(tier):
                                                             hooks=True, fails=False, G=2, cancel_flags=False), **_HO)]
 
 
+HR = "harness.h_resubmit"
+
+
+def c13(tier):
+    q = [_ob("K-closure", HR, "k_closure", dict(N=3)),
+         _ob("H-resubmit", HR, "h_resubmit", dict(shapes=["chain3", "join3"], bss=[2]), **_HO)]
+    if tier == "quick":
+        return q
+    return q + [_ob("H-resubmit/wide", HR, "h_resubmit", dict(shapes=["chain3", "fork3", "join3"], bss=[1, 2]), **_HO)]
+
+
 def obligations(prop, tier):
     table = {
         "C01": lambda t: k_batch(t) + k_queue(t) + h_submit(t),
@@ -157,6 +168,7 @@ def obligations(prop, tier):
         "C07": lambda t: k_batch(t) + h_submit(t) + h_dry(t),
         "C09": h_submit,
         "C12": h_lost,
+        "C13": c13,
         "C14": c14,
         "C15": c15,
         "C16": c16,
